@@ -1,5 +1,5 @@
 SPECIFICATION Spec
-CONSTANTS MaxR = 3  MaxC = 3  MaxEnt = 3  Depth = 2  Emit = FALSE
+CONSTANTS MaxR = 3  MaxC = 3  MaxEnt = 3  Depth = 2  Emit = FALSE  WithZero = FALSE
 VIEW View
-INVARIANTS Inv_Domain Inv_WellFormed Inv_Refines Inv_Views Inv_Fast
+INVARIANTS Inv_Domain Inv_WellFormed Inv_Refines Inv_Views Inv_Fast Inv_Value
 CHECK_DEADLOCK FALSE
